@@ -63,7 +63,7 @@ def to_sp(A):
 class Wrapper(Part):
     name = 'wrapper'
     chunk = 64
-    timeout = 15.0
+    timeout = 30.0
 
     def timeout_sig(self, case):
         lib, seq = case
